@@ -22,7 +22,9 @@ Inductive robs :=
   | RTimeout
   | RErr
   (* upstream questions, question name of the delivered message, rcode, answer *)
-  | RObs (calls : list (string * N)) (qname : string) (rcode : N) (ans : list xrr).
+  | RObs (calls : list (string * N)) (qname : string) (rcode : N) (ans : list xrr)
+  (* the handler returned an error; the message it left to be sent *)
+  | RFail (calls : list (string * N)) (qname : string) (rcode : N) (ans : list xrr).
 
 Inductive case :=
   (* the same table, served by a dnsforward.Server with the scripted
@@ -76,12 +78,25 @@ Definition query_ok (enabled : bool) (t : list entry) (q : string * N * obs * ob
   obs_ok (process_rewrites isort t (bs h) qt) o1 &&
   obs_ok (check_host isort enabled t (bs h) qt) o2.
 
-(** The scripted upstream of the response harness (c06rUpstream in Go). *)
-Definition ups (name : bytes) (qt : N) : N * list rr :=
-  if has_suffix (to_lower name) (bs ".example") then (3, [])
-  else if qt =? qA then (0, [RR_A name 151587081])                          (* 9.9.9.9 *)
-  else if qt =? qAAAA then (0, [RR_AAAA name 42540766411282592856903984951653826569])  (* 2001:db8::9 *)
-  else (0, []).
+(** The scripted upstream of the response harness (c06rUpstream in Go), by
+    the suffix of the lower-cased name asked: ".down" the exchange fails;
+    ".example" NXDOMAIN, ".fail" SERVFAIL, ".nodata" NOERROR, all three with
+    an empty answer section; ".multi" two address records; else one A
+    9.9.9.9 / one AAAA 2001:db8::9 for the name asked, nothing for other
+    types. *)
+Definition ups (name : bytes) (qt : N) : option (N * list rr) :=
+  let l := to_lower name in
+  if has_suffix l (bs ".down") then None
+  else if has_suffix l (bs ".example") then Some (3, [])
+  else if has_suffix l (bs ".fail") then Some (2, [])
+  else if has_suffix l (bs ".nodata") then Some (0, [])
+  else if qt =? qA then
+    Some (0, RR_A name 151587081 ::                                          (* 9.9.9.9 *)
+             (if has_suffix l (bs ".multi") then [RR_A name 151587082] else []))
+  else if qt =? qAAAA then
+    Some (0, RR_AAAA name 42540766411282592856903984951653826569 ::          (* 2001:db8::9 *)
+             (if has_suffix l (bs ".multi") then [RR_AAAA name 42540766411282592856903984951653826570] else []))
+  else Some (0, []).
 
 Definition mk_rr (x : xrr) : rr :=
   match x with
@@ -106,18 +121,22 @@ Definition same_rrs (l1 l2 : list rr) : bool :=
 
 Definition eqb_call (a b : bytes * N) : bool := eqb_bytes (fst a) (fst b) && (snd a =? snd b).
 
-Definition robs_ok (m : option response) (o : robs) : bool :=
+Definition resp_matches (p : response) (calls : list (string * N)) (qn : string) (rc : N)
+    (ans : list xrr) : bool :=
+  eqb_list eqb_call (rp_upstream p) (map (fun c : string * N => (bs (fst c), snd c)) calls) &&
+  eqb_bytes (rp_qname p) (bs qn) && (rp_rcode p =? rc) &&
+  same_rrs (rp_answer p) (map mk_rr ans).
+
+Definition robs_ok (m : option (bool * response)) (o : robs) : bool :=
   match m, o with
   | None, RTimeout => true
-  | Some p, RObs calls qn rc ans =>
-      eqb_list eqb_call (rp_upstream p) (map (fun c : string * N => (bs (fst c), snd c)) calls) &&
-      eqb_bytes (rp_qname p) (bs qn) && (rp_rcode p =? rc) &&
-      same_rrs (rp_answer p) (map mk_rr ans)
+  | Some (false, p), RObs calls qn rc ans => resp_matches p calls qn rc ans
+  | Some (true, p), RFail calls qn rc ans => resp_matches p calls qn rc ans
   | _, _ => false
   end.
 
 Definition rquery_ok (enabled : bool) (t : list entry) (q : string * N * robs) : bool :=
-  let '(h, qt, o) := q in robs_ok (respond isort ups enabled t (bs h) qt) o.
+  let '(h, qt, o) := q in robs_ok (respond_e isort ups enabled t (bs h) qt) o.
 
 Definition case_ok (c : case) : bool :=
   match c with
@@ -143,13 +162,13 @@ Definition explain (c : case) :=
       map (fun q : string * N * robs =>
              let '(h, qt, _) := q in
              (rquery_ok en t q,
-              match respond isort ups en t (bs h) qt with
+              match respond_e isort ups en t (bs h) qt with
               | None => (9, [], [])
-              | Some p => (rp_rcode p, rp_qname p, [])
+              | Some (f, p) => (rp_rcode p + (if f then 100 else 0), rp_qname p, [])
               end,
-              match respond isort ups en t (bs h) qt with
+              match respond_e isort ups en t (bs h) qt with
               | None => (9, [], [])
-              | Some p => (N.of_nat (List.length (rp_upstream p)),
+              | Some (_, p) => (N.of_nat (List.length (rp_upstream p)),
                            match rp_upstream p with c :: _ => fst c | [] => [] end,
                            map (fun r => match r with RR_A _ v => (true, v) | RR_AAAA _ v => (false, v)
                                           | _ => (false, 0) end) (rp_answer p))
